@@ -911,7 +911,7 @@ func c36ClsMinifies(cls int) bool   { return cls == c36ClsFlagMn || cls == c36Cl
 
 // Files around the shebang sniff of formatPath (io.ReadAtLeast(f, buf[:32], 9)): nothing to read (EOF),
 // a short read (1..8 bytes), exactly 9 bytes.  An empty file formats to "\n", so it is not a fixed point.
-var c36Tiny = []string{"", "", "", "\n", "#", "#!", "#!/b", "a", " ", "a\n", "#!/bin/s", "#!/bin/sh", "\n\n", "x=1\n", "#!/bin/sh\n", "\t"}
+var c36Tiny = []string{"", "", "", "", "", "", "\n", "#", "#!", "#!/b", "a", " ", "a\n", "#!/bin/s", "#!/bin/sh", "\n\n", "x=1\n", "#!/bin/sh\n", "\t"}
 
 // c36GenSourceCls biases towards simplifiable files when the option class simplifies.
 func c36GenSourceCls(r *Rand, bashOK bool, cls int) (string, string) {
@@ -1594,7 +1594,7 @@ func c36RunCase(c *Ctx, cs c36Case, r *Rand, replay bool) (res c36Result) {
 	n4 := 0
 	for _, p := range files {
 		o := per[p]
-		if o.st != 0 || n4 >= 6 {
+		if o.st != 0 || (n4 >= 6 && len(o.content) >= 9) { // files shorter than the shebang sniff are always compared
 			continue
 		}
 		n4++
@@ -1890,6 +1890,9 @@ func c36(c *Ctx) {
 		default:
 			// classes per block of ten: random, -s, tiny files, EditorConfig simplify, -mn, random, EditorConfig minify
 			cls := []int{c36ClsRandom, c36ClsFlagS, c36ClsTiny, c36ClsECSimplify, c36ClsFlagMn, c36ClsRandom, c36ClsECMinify}[k]
+			if k == 5 && (i/10)%2 == 0 {
+				cls = c36ClsTiny
+			}
 			cs, tags := c36GenCase(r, cls)
 			jobs = append(jobs, job{kind: "case", cs: cs, r: r, tags: tags})
 		}
